@@ -1,6 +1,7 @@
 package store
 
 import (
+	"fmt"
 	"strconv"
 	"unicode"
 
@@ -90,6 +91,10 @@ func ParsePathUint64(khash uint64, buf []int) []int {
 }
 
 func ParsePathString(pathStr string, buf []int) ([]int, error) {
+	if len(pathStr) > len(buf) {
+		// a key hash has 16 hex digits; a longer path used to slice past the buffer and panic
+		return nil, fmt.Errorf("path too long: %d digits", len(pathStr))
+	}
 	path := buf[:len(pathStr)]
 	for i := 0; i < len(pathStr); i++ {
 		idx, err := strconv.ParseInt(pathStr[i:i+1], 16, 0)
